@@ -496,8 +496,14 @@ def col(node, var):
 def dtype_choice(st):
     """`if <test>: dtype = ... else: dtype = ...` -- chooses the storage type of the result only"""
     def only_dtype(stmts):
-        return all(isinstance(x, ast.Assign) and len(x.targets) == 1 and isinstance(x.targets[0], ast.Name)
-                   and x.targets[0].id == 'dtype' for x in stmts)
+        # dtype = ...   or   x = np.zeros(...)  (allocation of the result with one storage type or another)
+        def ok(x):
+            if not (isinstance(x, ast.Assign) and len(x.targets) == 1 and isinstance(x.targets[0], ast.Name)):
+                return False
+            if x.targets[0].id == 'dtype':
+                return True
+            return x.targets[0].id == 'x' and isinstance(x.value, ast.Call) and call_name(x.value.func) in ('zeros', 'empty')
+        return all(ok(x) for x in stmts)
     return isinstance(st, ast.If) and bool(st.body) and only_dtype(st.body) and only_dtype(st.orelse)
 
 
